@@ -784,6 +784,7 @@ DE_STEP = r"""proof {
                         // the table just read went in under its own key; everything else is as before
                         let n = vx_y0.len() as int;
                         assert(vx_y0 == vx_prev.push(vx_new));
+                        assert(vx_y0.drop_last() =~= vx_prev && vx_y0.last() == vx_new);
                         assert(archetypes@ == vx_t0.insert(vx_new.key(), vx_new));
                         assert forall|k: archetype::IdentifierRef<R>| archetypes@.dom().contains(k) implies (exists|j: int| 0 <= j < n && (#[trigger] vx_y0[j]).key() == k) by {
                             if k == vx_new.key() { assert(vx_y0[n - 1].key() == k); }
@@ -823,6 +824,27 @@ impl<R: Registry> VxTableSeq<R> {
 }
 #[verifier::external_body]
 pub fn vx_custom_error() -> (e: VxErr) { unimplemented!() }
+
+/// sum of the lengths of the tables read so far
+pub open spec fn vx_sum_tables<R: Registry>(ts: Seq<archetype::Archetype<R>>) -> nat
+    decreases ts.len()
+{
+    if ts.len() == 0 { 0 } else { vx_sum_tables(ts.drop_last()) + ts.last().length as nat }
+}
+pub open spec fn vx_keys_of<R: Registry>(ts: Seq<archetype::Archetype<R>>) -> Seq<archetype::IdentifierRef<R>> {
+    Seq::new(ts.len(), |j: int| ts[j].key())
+}
+pub proof fn lemma_sum_tables_keys<R: Registry>(m: IMap<archetype::IdentifierRef<R>, archetype::Archetype<R>>, ts: Seq<archetype::Archetype<R>>)
+    requires forall|j: int| 0 <= j < ts.len() ==> m[(#[trigger] ts[j]).key()] == ts[j],
+    ensures vx_sum_keys(m, vx_keys_of(ts)) == vx_sum_tables(ts)
+    decreases ts.len()
+{
+    if ts.len() > 0 {
+        assert(vx_keys_of(ts).drop_last() =~= vx_keys_of(ts.drop_last()));
+        assert(vx_keys_of(ts).last() == ts.last().key());
+        lemma_sum_tables_keys(m, ts.drop_last());
+    }
+}
 """
 
 def build(only=None, name="archs"):
@@ -1014,23 +1036,33 @@ def build(only=None, name="archs"):
                      (r"\*self\.len", "*len", "the visitor's `len: &mut usize` field is passed as a parameter"),
                      (r"de::Error::custom\(format_args!\(.*?\)\)\);", "vx_custom_error());", "R10c: error-message construction dropped (the value of the error is not specified)"),
                      ],
-           requires=[("pre.len_zero_based", "*old(len) == old(seq).total()"), ("pre.seq_fresh", "old(seq).yielded().len() == 0")],
+           requires=[("pre.len_zero_based", "*old(len) == old(seq).total() && *old(len) == 0"), ("pre.seq_fresh", "old(seq).yielded().len() == 0")],
            ensures=[("C13.deserialize.wf", "r is Ok ==> r->Ok_0.wf() && vx_tables_wf(r->Ok_0@)"),
                     ("C13.deserialize.single_table", "r is Ok ==> vx_single_table(r->Ok_0@) && forall|k: archetype::IdentifierRef<R>| r->Ok_0@.dom().contains(k) ==> (#[trigger] r->Ok_0@[k]).key() == k"),
                     ("C11.deserialize.tables_kept", "r is Ok ==> forall|j: int| 0 <= j < final(seq).yielded().len() ==> r->Ok_0@.dom().contains((#[trigger] final(seq).yielded()[j]).key()) && r->Ok_0@[final(seq).yielded()[j].key()] == final(seq).yielded()[j]"),
                     ("C11.deserialize.nothing_else", "r is Ok ==> forall|k: archetype::IdentifierRef<R>| r->Ok_0@.dom().contains(k) ==> (exists|j: int| 0 <= j < final(seq).yielded().len() && (#[trigger] final(seq).yielded()[j]).key() == k)"),
                     ("C11.deserialize.distinct_component_sets", "r is Ok ==> forall|a: int, b: int| 0 <= a < b < final(seq).yielded().len() ==> vx_key_bits((#[trigger] final(seq).yielded()[a]).key()) != vx_key_bits((#[trigger] final(seq).yielded()[b]).key())"),
-                    ("C01.deserialize.len", "r is Ok ==> *final(len) == final(seq).total()")],
+                    ("C01.deserialize.len", "r is Ok ==> *final(len) == final(seq).total()"),
+                    ("C13.deserialize.len_is_row_count", "r is Ok ==> *final(len) == vx_total_rows(r->Ok_0@)")],
            loops=[Loop(invariant=[
                ("de.prev", "vx_prev == seq.yielded()"),
                ("de.wf", "archetypes.wf() && vx_tables_wf(archetypes@)"),
                ("de.len", "*len == seq.total()"),
+               ("de.sum", "*len == vx_sum_tables(seq.yielded())"),
                ("de.kept", "forall|j: int| 0 <= j < seq.yielded().len() ==> archetypes@.dom().contains((#[trigger] seq.yielded()[j]).key()) && archetypes@[seq.yielded()[j].key()] == seq.yielded()[j]"),
                ("de.nothing_else", "forall|k: archetype::IdentifierRef<R>| archetypes@.dom().contains(k) ==> (exists|j: int| 0 <= j < seq.yielded().len() && (#[trigger] seq.yielded()[j]).key() == k)"),
                ("de.distinct", "forall|a: int, b: int| 0 <= a < b < seq.yielded().len() ==> vx_key_bits((#[trigger] seq.yielded()[a]).key()) != vx_key_bits((#[trigger] seq.yielded()[b]).key())"),
            ], decreases="seq.remaining()")],
            hints=[Hint("start", "let ghost mut vx_prev = seq.yielded();"),
-                  Hint("before", "proof { archetypes.lemma_single_table(); }", anchor=r"Ok\(archetypes\)"),
+                  Hint("before", r"""proof { archetypes.lemma_single_table();
+                      let ts = seq.yielded(); let ks = vx_keys_of(ts);
+                      assert forall|a: int, b: int| 0 <= a < b < ks.len() implies ks[a] != ks[b] by { assert(vx_key_bits(ts[a].key()) != vx_key_bits(ts[b].key())); }
+                      assert forall|k: archetype::IdentifierRef<R>| archetypes@.dom().contains(k) == ks.contains(k) by {
+                          if archetypes@.dom().contains(k) { let j = choose|j: int| 0 <= j < ts.len() && (#[trigger] ts[j]).key() == k; assert(ks[j] == k); }
+                          if ks.contains(k) { let j = choose|j: int| 0 <= j < ks.len() && ks[j] == k; assert(archetypes@.dom().contains(ts[j].key())); }
+                      }
+                      lemma_sum_tables_keys(archetypes@, ts);
+                      lemma_total_rows(archetypes@, ks); }""", anchor=r"Ok\(archetypes\)"),
                   Hint("before", "let ghost vx_y0 = seq.yielded(); let ghost vx_t0 = archetypes@; let ghost vx_new = archetype;", anchor=r"\*len \+= archetype\.len\(\);"),
                   Hint("after_block", DE_STEP, anchor=r"if let Err\(archetype\) = archetypes\.insert\(archetype\)")],
            props=["C11", "C13", "C06", "C01"]),
